@@ -249,7 +249,11 @@ fn main() {
 	};
 	match cmd.as_str() {
 		"gen" => match prop.as_str() {
-			"C01" => { each_codec_type!(enc_one, (&mut ctx)); },
+			"C01" => {
+				each_codec_type!(enc_one, (&mut ctx));
+				// Encode-only forms (&T, &[T], &str, Cow, CompactRef, Ref, borrowed collections): their bytes against the owned type's descriptor
+				likes::drive(&mut ctx);
+			},
 			"C02" => {
 				each_codec_type!(rt_one, (&mut ctx));
 				each_seq_type!(rt_seq, (&mut ctx));
